@@ -419,6 +419,7 @@ func c12Run(c *core.C) {
 	}
 	for rep := 0; rep < 3; rep++ {
 		s := gen.NewScenario(r, 3, scenOpts)
+		countBig(c, s)
 		c12AddRuleChain(r, s)
 		if rep != 1 {
 			c12AddRegexAndJoin(r, s)
@@ -545,6 +546,7 @@ func c13Run(c *core.C) {
 	r := c.R
 	for rep := 0; rep < 3; rep++ {
 		s := gen.NewScenario(r, 3, scenOpts)
+		countBig(c, s)
 		tok, err := buildScenarioToken(c.Seed, fmt.Sprintf("c13-%d-%d", c.Idx, rep), s.Blocks)
 		if err != nil {
 			c.Violate("build-refused", err.Error(), gen.Texts(s.Blocks))
@@ -802,7 +804,9 @@ func c18Run(c *core.C) {
 	}
 	for rep := 0; rep < 3; rep++ {
 		s := gen.NewScenario(r, 3, scenOpts)
+		countBig(c, s)
 		s2 := gen.NewScenario(r, 3, scenOpts)
+		countBig(c, s2)
 		t1, err1 := buildScenarioToken(c.Seed, fmt.Sprintf("c18a-%d-%d", c.Idx, rep), s2.Blocks) // T1: independent token
 		t2, err2 := buildScenarioToken(c.Seed, fmt.Sprintf("c18b-%d-%d", c.Idx, rep), s.Blocks)  // T2: the token the content is about
 		if err1 != nil || err2 != nil {
@@ -959,6 +963,7 @@ func c18Malformed(c *core.C) {
 	r := c.R
 	// a valid snapshot to mutate
 	s := gen.NewScenario(r, 2, scenOpts)
+	countBig(c, s)
 	tok, err := buildScenarioToken(c.Seed, fmt.Sprintf("c18m-%d", c.Idx), s.Blocks)
 	if err != nil {
 		return
